@@ -146,6 +146,13 @@ pub fn alias_variants(p: &StructProg) -> Vec<StructProg> {
 /// deeper - every arrangement of {Inner, InnerTwin} over three member positions plus a scalar.
 pub fn lookalike_space() -> Vec<StructProg> {
     let mut out = vec![];
+    // wide: one struct with 70 members of rotating leaf types (every member is a field, whatever its index)
+    {
+        let leafs = [Ty::Scalar(Scalar::F32), Ty::Vec(3, Scalar::F32), Ty::Scalar(Scalar::U32), Ty::Vec(4, Scalar::F32), Ty::Vec(2, Scalar::I32), Ty::Mat(4, 4, Scalar::F32), Ty::Array(Box::new(Ty::Vec(4, Scalar::F32)), 2)];
+        let names: Vec<String> = (0..70).map(|i| format!("wide_m{i}")).collect();
+        let members: Vec<Member> = (0..70).map(|i| Member::plain(&names[i], leafs[i % leafs.len()].clone())).collect();
+        out.push(make_prog(members, "storage", "lookalike|wide-70-members".to_string()));
+    }
     let tys = [Ty::Struct(INNER.into()), Ty::Struct("InnerTwin".into()), Ty::Array(Box::new(Ty::Struct("InnerTwin".into())), 2), Ty::Array(Box::new(Ty::Struct(INNER.into())), 2)];
     for a in 0..tys.len() {
         for b in 0..tys.len() {
